@@ -56,6 +56,14 @@ def roundtrip(ctx, m, legacy, sub, as_bytes = False):
 		witness["decoded"] = trxd.brief(got)
 		ctx.violation(sub, witness, what = "fields differ after decode(encode(m)): %s" % ",".join(d))
 		return False
+	if m["ver"] == 0 and m["dir"] == "rx" and m.get("soft") is not None and m.get("mod") in ("GMSK", "8PSK"):
+		# version 0 knows normal GMSK bursts (148) and 8-PSK bursts (444) only and does not carry the modulation: a message of
+		# one of these two decodes to the same modulation again
+		ctx.count("v0_modulation_guess_compared")
+		if got.get("mod_guess") != m["mod"]:
+			witness["decoded"] = trxd.brief(got)
+			ctx.violation(sub, witness, what = "version-0 message with a %s burst decodes as modulation %s" % (m["mod"], got.get("mod_guess")))
+			return False
 	if m["ver"] == 0:
 		# legacy padding must not change what is decoded
 		try:
@@ -87,6 +95,17 @@ def enumerated(ctx):
 				m["tsc_set"], m["tsc"] = s, t
 			roundtrip(ctx, m, False, "enum-mts")
 			ctx.count("enum:mts")
+	# TSC sets the protocol does not define for a modulation: the toolkit refuses them (C13 decides that); whatever it
+	# does accept as valid is inside C01's domain and must come back unchanged
+	for mod, (_, _, nsets) in trxd.MODS.items():
+		for s in range(nsets, 4):
+			i += 1
+			if not ctx.mine(i):
+				continue
+			m = trxd.rand_rx(r, ver = 1, nope = False, mod = mod)
+			m["tsc_set"] = s
+			roundtrip(ctx, m, False, "enum-mts-undefined")
+			ctx.count("enum:mts-undefined")
 	# all attenuation octets
 	for pwr in range(256):
 		i += 1
